@@ -25,7 +25,16 @@ def fine_grid(F, f0=1.0, df=0.002):
     return [f0 + df * i for i in range(F)]
 
 
-GRIDS = {"lin": lin_grid, "geo": geo_grid, "fine": fine_grid}
+def same_ends_grid(F):
+    """Geometric grid with the same length, first and last sample as lin_grid(F)
+    (1 .. F Hz) but different interior samples."""
+    r = float(F) ** (1.0 / (F - 1))
+    g = [r ** i for i in range(F)]
+    g[0], g[-1] = 1.0, float(F)
+    return g
+
+
+GRIDS = {"lin": lin_grid, "geo": geo_grid, "fine": fine_grid, "same": same_ends_grid}
 
 # ---------------------------------------------------------------------------
 # curve shapes on F samples (amplitudes strictly positive)
